@@ -242,6 +242,18 @@ func (ex *Exec) instr(fr *Frame, st *State, in ssa.Instruction) {
 			fr.vals[x] = Term{S: sx("Dyn_other", "0", ex.vc.fresh("clo", "Int")), T: x.Type()}
 			return
 		}
+		if p, isPtr := v.(Ptr); isPtr {
+			// the address of a local escapes into an interface value (fmt.Sscanf(&x), json.Unmarshal(&v), ...):
+			// from now on any call may write it
+			if cr, ok := p.Loc.Root.(CellRoot); ok {
+				if fr.escaped == nil {
+					fr.escaped = map[*ssa.Alloc]bool{}
+				}
+				fr.escaped[cr.A] = true
+			}
+			fr.vals[x] = Term{S: sx("Dyn_other", "0", ex.vc.fresh("addr", "Int")), T: x.Type()}
+			return
+		}
 		vt := ex.asTerm(v, xt)
 		if isInterface(xt) {
 			fr.vals[x] = Term{S: vt.S, T: x.Type()}
@@ -657,8 +669,10 @@ func (ex *Exec) binopTerms(fr *Frame, st *State, op token.Token, a, b Term, xt, 
 			ex.strAxioms()
 			return Term{S: sx("g_concat", a.S, b.S), T: rt}
 		case token.LSS:
+			ex.strAxioms()
 			return Term{S: sx("g_strlt", a.S, b.S), T: rt}
 		case token.GTR:
+			ex.strAxioms()
 			return Term{S: sx("g_strlt", b.S, a.S), T: rt}
 		case token.LEQ:
 			return Term{S: sNot(sx("g_strlt", b.S, a.S)), T: rt}
@@ -941,6 +955,9 @@ func (ex *Exec) sliceCheck(fr *Frame, st *State, lo, hi, ln string, pos token.Po
 func (ex *Exec) strAxioms() {
 	vc := ex.vc
 	vc.tc.strBytes = true
+	vc.addAxiom("strlt_irrefl", "(forall ((a Str)) (! (not (g_strlt a a)) :pattern ((g_strlt a a))))", "g_strlt")
+	vc.addAxiom("strlt_total", "(forall ((a Str) (b Str)) (! (or (= a b) (g_strlt a b) (g_strlt b a)) :pattern ((g_strlt a b))))", "g_strlt")
+	vc.addAxiom("strlt_asym", "(forall ((a Str) (b Str)) (! (not (and (g_strlt a b) (g_strlt b a))) :pattern ((g_strlt a b))))", "g_strlt")
 	vc.addAxiom("strlen_nonneg", "(forall ((s Str)) (! (>= (g_strlen s) 0) :pattern ((g_strlen s))))", "g_strlen")
 	vc.addAxiom("strlen_concat", "(forall ((a Str) (b Str)) (! (= (g_strlen (g_concat a b)) (+ (g_strlen a) (g_strlen b))) :pattern ((g_concat a b))))", "g_concat")
 	vc.addAxiom("strlen_substr", "(forall ((s Str) (i Int) (j Int)) (! (=> (and (<= 0 i) (<= i j) (<= j (g_strlen s))) (= (g_strlen (g_substr s i j)) (- j i))) :pattern ((g_substr s i j))))", "g_substr")
